@@ -12,7 +12,7 @@ C37 driver.  One output line per input line.
   infer <frags>                            Fragment::try_infer_version
   check <codepoints> <frags>               check_storage_version
   commit <codepoints> <frags> <cfg> <base> <en> <dis>   check_storage_version, then apply_feature_flags
-  hcreate <rows> <Variant> <stable> | happend <rows> | hdelete <lo> <hi> | hconfig <k> | hunconfig <k> |
+  hcreate <rows> <Variant> <stable> | happend <rows> | hdelete <lo> <hi> | hconfig <k> | hunconfig <k> | hbase <k> |
   hoverwrite <rows> <Variant>              table history; prints the manifest summary after the operation
 
 <frags>: `-` or `;`-separated fragments `<d><r>(/<major>.<minor>)*` with d = has deletion file, r = has row id meta.
@@ -176,6 +176,10 @@ def step (st : St) (line : String) : St × String :=
   | ["hconfig", k] =>
     match st, k.toNat? with
     | some s, some k => let s' := s.setConfig k; (some s', showH s')
+    | _, _ => (st, bad)
+  | ["hbase", k] =>
+    match st, k.toNat? with
+    | some s, some k => let s' := s.addBase k; (some s', showH s')
     | _, _ => (st, bad)
   | ["hunconfig", k] =>
     match st, k.toNat? with
